@@ -74,7 +74,7 @@ func VerifC08Canonical() {
 		return tkn, nil
 	}
 	var data []byte
-	switch vChoose("class", 5) {
+	switch vChoose("class", 6) {
 	case 0: // one byte replaced by 1..W arbitrary bytes, at any offset
 		p := vChoose("offset", len(canonical))
 		w := 1 + vChoose("window", vParam("W"))
@@ -123,6 +123,9 @@ func VerifC08Canonical() {
 		pvb, _ := ipld.Encode(pv, dagcbor.Encode)
 		data = append([]byte{0x82, 0x42, 0xAA, 0xBB, 0xa2}, append(append(append(tg, pvb...), h...), hvb...)...)
 		vReach("swapped-keys")
+	case 4: // bytes after the complete envelope
+		data = append(append([]byte{}, canonical...), vBytes("trailing", 1+vChoose("trailing_len", 2))...)
+		vReach("trailing")
 	default:
 		data = canonical
 		vReach("canonical")
